@@ -82,6 +82,36 @@ def gen_cases(ctx):
         b = {"cls": sp, "rec": p["name"], "ce": ce}
         cases.append({"kind": "twin", "history": [a, b]})
         cases.append({"kind": "twin", "history": [b, a]})
+    # (d) neoschizomer twins: part classes with the same signature over two enzymes that share the
+    #     recognition site but cut elsewhere, asked one after the other
+    bysite = {}
+    for e in ctx.tables["enzymes"]:
+        bysite.setdefault(e["site"], {})[(e["off"], e["ovh"])] = e
+    tw = 0
+    for site, geos in sorted(bysite.items()):
+        es = sorted(geos.values(), key=lambda e: e["name"])
+        if len(es) < 2 or len(site) < 4:
+            continue
+        for e1 in es:
+            for e2 in es:
+                if e1 is e2:
+                    continue
+                steps = []
+                for e in (e1, e2):
+                    k = e["ovh"]
+                    u, d = gens.rand_dna(rng, k), gens.rand_dna(rng, k)
+                    m = gens.gen_module(rng, e, u, d, 4, 3)
+                    if m is None:
+                        break
+                    rname = "neo_%s_%d" % (e["name"], tw)
+                    inst[rname] = m["seq"]
+                    sp = {"kind": "part", "role": "module", "enzyme": e["name"], "sig": [u, d], "name": "Neo%s%d" % (e["name"], tw)}
+                    cl = "(part_cls RModule %s %s %s)" % (pattern.c_enzyme(e), pattern.c_pattern(pattern.tokenize(u, ctx.lettermap)),
+                                                         pattern.c_pattern(pattern.tokenize(d, ctx.lettermap)))
+                    steps.append({"cls": sp, "rec": rname, "ce": '(CE "%s" ["%s"] %s)' % (sp["name"], sp["name"], cl)})
+                if len(steps) == 2:
+                    cases.append({"kind": "neoschizomers", "history": steps})
+                    tw += 1
     # (b) random longer histories, with subclasses created at run time
     nh = 60 if ctx.quick else 600
     for hno in range(nh):
